@@ -447,6 +447,10 @@ pub fn run_case(w: &World, case: &Case, seed: u64, out: &mut Out) {
         Ok(Err(e)) => {
             if case.mismatch {
                 out.h("mismatch-outcome", &format!("rejected-at-parse:{}", e));
+            } else if case.keys.iter().any(|k| k.has_duplicate_alts()) {
+                // a multipath step listing the same index twice: rejected since /repo 109461ce
+                // (as Bitcoin Core does); either outcome is consistent with this property
+                out.h("duplicate-alternative-outcome", &format!("rejected-at-parse:{}", e));
             } else {
                 out.violation("parse-reject", case, &s, None, &format!("a valid descriptor is rejected: {}", e), "");
             }
